@@ -267,7 +267,10 @@ def py_apply(kind, op, a, b=None):
         with warnings.catch_warnings():
             warnings.simplefilter("ignore")
             if kind == "bin":
-                return ("val", PY_BIN[op](a, b))
+                r = PY_BIN[op](a, b)
+                if isinstance(r, complex):
+                    return ("other", "complex")
+                return ("val", r)
             if kind == "un":
                 return ("val", PY_UN[op](a))
             if kind == "cmp":
@@ -1088,6 +1091,14 @@ def gen_hist(rng, tier, i):
             env["pvars"][name] = v
         changes.append(ch)
     case["changes"] = changes
+    # every intermediate store must keep the values small (the machine would really compute them)
+    env = json.loads(json.dumps(case["env"]))
+    try:
+        for ch in changes:
+            apply_env_change(env, ch)
+            ref_result(case["tree"], env_store(env))
+    except TooBig:
+        return gen_hist(rng, tier, i)
     return case
 
 
@@ -1231,6 +1242,13 @@ def oracle_hist(case, out):
     fails = []
     dead = "exc" in out["init"]
     suspects = []
+    env = json.loads(json.dumps(case["env"]))
+    effective = []
+    for ch in case["changes"]:
+        grp = {"mv": "mvars", "rm": "mvars", "set": "settings", "sw": "switches", "pv": "pvars"}[ch[0]]
+        old = env[grp].get(ch[1], "absent")
+        apply_env_change(env, ch)
+        effective.append(old != env[grp].get(ch[1], "absent"))
     for i, (ch, st) in enumerate(zip(case["changes"], out["steps"])):
         if dead or "exc" in st["last"]:
             break
@@ -1238,7 +1256,7 @@ def oracle_hist(case, out):
             continue                         # evaluating now raises: no value to be stale against
         if st["fired"]:
             suspects = []
-        else:
+        elif effective[i]:
             suspects.append(ch)
         if not py_equal(st["last"], st["fresh"]):
             rd = set(st["reads"]) | set(out["steps"][i - 1]["reads"] if i else [])
@@ -1312,11 +1330,11 @@ HDR_EXPR = "From C16 Require Import Model.\nDefinition run := expr_run.\nDefinit
 
 SUITES = [
     Suite("ops", gen_ops, run_ops, HDR_OPS, coq_ops, oracle_ops, shrink_ops, None,
-          {"quick": 6000, "thorough": 200000}, describe=describe_ops, shard=1500),
+          {"quick": 5000, "thorough": 200000}, describe=describe_ops, shard=800),
     Suite("expr", gen_expr, run_expr, HDR_EXPR, coq_expr, oracle_expr, shrink_expr, nontrivial_expr,
-          {"quick": 4000, "thorough": 150000}, describe=describe_expr, shard=500),
+          {"quick": 3000, "thorough": 150000}, describe=describe_expr, shard=250),
     Suite("hist", gen_hist, run_hist, HDR_HIST, coq_hist, oracle_hist, shrink_hist, nontrivial_hist,
-          {"quick": 1500, "thorough": 40000}, describe=describe_hist, shard=300),
+          {"quick": 900, "thorough": 40000}, describe=describe_hist, shard=150),
     Suite("ext", gen_ext, run_expr, None, None, oracle_expr, shrink_expr, nontrivial_expr,
           {"quick": 1500, "thorough": 50000}, describe=describe_expr),
 ]
